@@ -133,6 +133,95 @@ Definition chk (c : graph * nat * nat * nat * graph * graph * list nat * bool) :
     ctx.coverage["primitive_tie"] = stats
 
 
+# ------------------------------------------------------------------ tie D: the verified cast pass
+def tie_cast_pass(ctx):
+    """the REAL remove_redundant_casts_ir vs the Coq model cast_pass (theories/CastPass.v) on the cast family of the
+    corpus (all type pairs x observed-intermediate variants) and on random cast chains"""
+    import onnx
+    import onnx_ir as ir
+    import graphs
+    from onnx import TensorProto as TP, helper as H
+    from jax2onnx.converter import ir_optimizations as opt
+    rng = ctx.rng
+    models = [(k, m) for k, m in graphs.cast_family()]
+    types = [TP.FLOAT, TP.DOUBLE, TP.FLOAT16, TP.INT32, TP.INT64, TP.INT8, TP.UINT8, TP.BOOL]
+    for i in range(120 if ctx.tier == "quick" else 1200):          # random chains with identity casts, branches, extra consumers
+        cur_t = rng.choice(types)
+        nodes, names, ts = [], ["in_0"], [cur_t]
+        for j in range(rng.randint(1, 5)):
+            src = rng.randrange(len(names)) if rng.random() < 0.25 else len(names) - 1
+            t = ts[src] if rng.random() < 0.2 else (ts[rng.randrange(len(ts))] if rng.random() < 0.5 else rng.choice(types))
+            op = "Cast" if rng.random() < 0.8 else "Identity"
+            out = f"v{j}"
+            if op == "Cast":
+                nodes.append(H.make_node("Cast", [names[src]], [out], to=t, name=f"n{j}"))
+            else:
+                t = ts[src]
+                nodes.append(H.make_node("Identity", [names[src]], [out], name=f"n{j}"))
+            names.append(out)
+            ts.append(t)
+        outs_idx = sorted(set([len(names) - 1] + [rng.randrange(1, len(names)) for _ in range(rng.randint(0, 2))]))
+        m = graphs._model(nodes, [graphs._vi("in_0", ts[0], [3])], [graphs._vi(names[k], ts[k], [3]) for k in outs_idx])
+        models.append((f"rand{i}", m))
+    rows = []
+    for key, m in models:
+        try:
+            m = onnx.shape_inference.infer_shapes(m, strict_mode=True)
+        except Exception:
+            continue
+        table = {}
+
+        def intern(nm):
+            return table.setdefault(nm, len(table))
+        ann = {}
+        for vi in list(m.graph.input) + list(m.graph.value_info) + list(m.graph.output):
+            ann[intern(vi.name)] = vi.type.tensor_type.elem_type
+
+        def enc_nodes(g):
+            out = []
+            for n in g.node:
+                caps = []
+                for a in n.attribute:
+                    if a.type == onnx.AttributeProto.GRAPH:
+                        for bn in a.g.node:
+                            caps += [intern(x) for x in bn.input if x]
+                attrs = [a.i for a in n.attribute if a.name == "to"] if n.op_type == "Cast" else []
+                out.append((n.op_type, attrs, [intern(x) for x in n.input if x], caps, [intern(x) for x in n.output]))
+            return out
+        before = enc_nodes(m.graph)
+        outs_before = [intern(o.name) for o in m.graph.output]
+        irm = ir.from_proto(m)
+        opt.remove_redundant_casts_ir(irm.graph)
+        after_p = ir.to_proto(irm)
+        after = enc_nodes(after_p.graph)
+        outs_after = [intern(o.name) for o in after_p.graph.output]
+        rows.append((key, before, outs_before, ann, after, outs_after))
+
+    def nl(l):
+        return "[" + "; ".join(str(x) for x in l) + "]"
+
+    def cg(ns):
+        return "[" + "; ".join(f'mkNode "{op}"%string {nl(a)} {nl(i)} {nl(c)} {nl(o)}' for op, a, i, c, o in ns) + "]"
+    txt = common.CASES_HEADER + "From J2O Require Import Graph CastPass.\nClose Scope Z_scope.\n"
+    txt += """Definition leqb (a b : list nat) := list_eqb Nat.eqb a b.
+Definition node_eqb (a b : node) := String.eqb (n_op a) (n_op b) && leqb (n_attrs a) (n_attrs b) && leqb (n_ins a) (n_ins b) && leqb (n_caps a) (n_caps b) && leqb (n_outs a) (n_outs b).
+Definition ann_of (l : list (nat * Z)) (n : nat) : option Z := match find (fun p => Nat.eqb (fst p) n) l with Some p => Some (snd p) | None => None end.
+Definition chk (c : list node * list nat * list (nat * Z) * list node * list nat) : bool :=
+  let '(ns, outs, ann, ns2, outs2) := c in
+  let g' := cast_pass 40 (mkAG ns outs (ann_of ann)) in
+  list_eqb node_eqb (ag_nodes g') ns2 && leqb (ag_outputs g') outs2.
+"""
+    txt += "Definition cs := [\n" + ";\n".join(
+        f"({cg(b)}, {nl(ob)}, [" + "; ".join(f"({k}, ({v})%Z)" for k, v in sorted(ann.items())) + f"], {cg(a)}, {nl(oa)})"
+        for _, b, ob, ann, a, oa in rows) + "].\nEval vm_compute in bad_idx_ chk 0 cs.\n"
+    ok, out = common.coq_eval_file(ctx, "c02_castpass", txt)
+    bad = common.coq_bad_indices(out) if ok else None
+    changed = sum(1 for r in rows if r[1] != r[4])
+    ctx.oblige(f"tie:CastPass.v cast_pass == remove_redundant_casts_ir ({len(rows)} graphs, {changed} rewritten)", bad == [], "tie",
+               out[-1200:] if bad is None else f"model and implementation differ on {[rows[i][0] for i in bad[:6]]}")
+    ctx.coverage["cast_pass_tie"] = {"graphs": len(rows), "rewritten_by_pass": changed}
+
+
 # ------------------------------------------------------------------ enumeration through the real optimizer
 def enumerate_graphs(ctx):
     import graphs
@@ -153,8 +242,9 @@ def run(ctx):
         "Graph.v model of onnx_ir.convenience.replace_all_uses_with(replace_graph_outputs=True) / Graph.remove / _consumer_nodes / _value_is_observed, tied by differential run on random graphs incl. nested If captures",
         "NOT modelled: the control flow of the 18 passes and the 4 onnx_ir passes (NameFix, CSE, LiftConstants, RemoveUnusedNodes); they are exercised by exhaustive enumeration of the rewrite neighbourhood with ONNX Runtime as oracle (exploration, bounded by the listed graph families)",
     ]
-    common.build_props(ctx, "C02", ["GenCast", "GenOpt"])
+    common.build_props(ctx, "C02", ["GenCast", "GenOpt", "LibTables"])
     tie_primitives(ctx, 250 if ctx.tier == "quick" else 1500)
+    tie_cast_pass(ctx)
     items, res = enumerate_graphs(ctx)
     import collections
     st = collections.Counter(r["status"] for r in res)
